@@ -49,6 +49,10 @@ pub struct Case {
     /// processing function when the drop happens
     #[serde(default)]
     pub slow: Vec<(usize, u32)>,
+    /// (workers, items): an independent second pipe that another thread consumes completely while
+    /// this case idles / drops its own iterator; it must be unaffected
+    #[serde(default)]
+    pub second_pipe: Option<(u8, usize)>,
 }
 
 fn yes() -> bool {
@@ -213,6 +217,7 @@ impl Prop for C09 {
                 panic_at: vec![],
                 idle_before_drop: true,
                 slow: vec![],
+                second_pipe: None,
             };
         }
         let stack = match rng.random_range(0..3) {
@@ -253,6 +258,7 @@ impl Prop for C09 {
                 panic_at,
                 idle_before_drop: true,
                 slow: vec![],
+                second_pipe: None,
             };
         }
         let controlled = lane == "sched";
@@ -313,6 +319,11 @@ impl Prop for C09 {
             panic_at: vec![],
             idle_before_drop,
             slow,
+            second_pipe: if rng.random_range(0..4) == 0 {
+                Some((rng.random_range(1..=3u8), rng.random_range(20..=300usize)))
+            } else {
+                None
+            },
         }
     }
 
@@ -362,6 +373,26 @@ impl Prop for C09 {
             dropped: dropped.clone(),
         };
         let it = build(&c.stack, src, c.threads, c.buffer, vec![], c.slow.clone());
+        // second, independent pipe (+ buffered) consumed completely by another thread meanwhile
+        let (aux_tx, aux_rx) = std::sync::mpsc::channel::<Result<(), String>>();
+        if let Some((w2, n2)) = c.second_pipe {
+            std::thread::spawn(move || {
+                let f2: text_utils::data::Pipeline<usize, u64> =
+                    Arc::new(move |x: usize| super::c05::tag(x) ^ 0xaaaa);
+                let out: Vec<u64> = (0..n2).pipe(f2, w2).buffered(2).collect();
+                let expect: Vec<u64> = (0..n2).map(|x| super::c05::tag(x) ^ 0xaaaa).collect();
+                let _ = aux_tx.send(if out == expect {
+                    Ok(())
+                } else {
+                    Err(format!(
+                        "second pipe (W={w2}, n={n2}) yielded {} of {} items, first 8: {:?}",
+                        out.len(),
+                        n2,
+                        &out[..out.len().min(8)]
+                    ))
+                });
+            });
+        }
         // consumer thread: take k items, idle until told, drop, finish
         let idle = Arc::new(AtomicBool::new(false));
         let go_drop = Arc::new(AtomicBool::new(false));
@@ -628,6 +659,21 @@ impl Prop for C09 {
         if !dropped.load(Ordering::SeqCst) {
             obs.inconclusive("upstream iterator not dropped 10 s after the run ended");
             obs.poison();
+        }
+        if c.second_pipe.is_some() {
+            // the second pipe needs milliseconds; 120 s is the one wall-clock bound used as a verdict
+            // here (a second pipe that is wedged by the first one's shutdown never finishes)
+            match aux_rx.recv_timeout(Duration::from_secs(120)) {
+                Ok(Ok(())) => obs.tag("second-pipe-concurrently"),
+                Ok(Err(e)) => obs.fail("two-pipes/second-pipe-wrong", e),
+                Err(_) => {
+                    obs.fail(
+                        "two-pipes/second-pipe-did-not-finish",
+                        "an independent second pipe did not finish within 120 s of the first one's shutdown",
+                    );
+                    obs.poison();
+                }
+            }
         }
         obs.distinct(
             "fault_points",
